@@ -2,6 +2,7 @@ package c38
 
 import (
 	"fmt"
+	"os"
 	"strings"
 
 	"pgregory.net/rapid"
@@ -615,7 +616,7 @@ func (g *gen) callStmt() string {
 		return g.record()
 	}
 	h := g.funcs[g.Pick(len(g.funcs), "call-which")]
-	if g.inHelper && strings.HasPrefix(h.kind, "recover-") && vrec.Known("F-C38-3") {
+	if g.inHelper && strings.HasPrefix(h.kind, "recover-") && knownFinding("F-C38-3") {
 		// known finding: recovery depends on the call depth of the recovering function;
 		// it is only called from the entry function (depth 2) while the finding is open
 		vrec.Excluded("F-C38-3")
@@ -648,7 +649,7 @@ func (g *gen) deferRecoverStmt() string {
 	tag := fmt.Sprintf(`"d%d"`, g.Ev())
 	var cause string
 	pc := g.Pick(6, "panic-cause")
-	if pc <= 3 && g.inHelper && vrec.Known("F-C38-3") {
+	if pc <= 3 && g.inHelper && knownFinding("F-C38-3") {
 		// known finding: whether recover() stops the panic depends on the call depth of the
 		// recovering function. Panicking defers are only generated at depth 2 (in the entry function).
 		vrec.Excluded("F-C38-3")
@@ -820,7 +821,7 @@ func (g *gen) deferReturnFunc() {
 // as modified by deferred closures.
 func (g *gen) recoverFunc() {
 	name := g.Top("g")
-	if vrec.Known("F-C38-2") {
+	if knownFinding("F-C38-2") {
 		// known finding: result values of a function whose deferred closures modify a named
 		// result or recover a panic. Generated without results while the finding is open.
 		vrec.Excluded("F-C38-2")
@@ -836,14 +837,20 @@ func (g *gen) recoverFunc() {
 	g.funcs = append(g.funcs, helper{name, []string{"int"}, "int", "recover-named-result"})
 }
 
+// knownFinding reports whether finding id is listed as known and its exclusion is not switched off
+// for a test run of a proposed fix: VERIF_IGNORE_KNOWN=F-C38-1,F-C38-4 ./check C38 quick
+func knownFinding(id string) bool {
+	return vrec.Known(id) && !strings.Contains(","+os.Getenv("VERIF_IGNORE_KNOWN")+",", ","+id+",")
+}
+
 // Generate builds one C38 program.
 func Generate(t *rapid.T, px string) gobatch.Program {
 	g := &gen{G: progen.New(t, px, 30)}
-	g.labels = !vrec.Known("F-C38-1")
+	g.labels = !knownFinding("F-C38-1")
 	if g.Chance(2, 3, "has-type") {
 		g.typeName = g.Top("T")
 		g.fa, g.fb, g.fc, g.fd = "a", "b", "c", "d"
-		if vrec.Known("F-C38-4") {
+		if knownFinding("F-C38-4") {
 			// known finding: lowercase field names cannot be selected. Capitalised while it is open.
 			vrec.Excluded("F-C38-4")
 			g.fa, g.fb, g.fc, g.fd = "A", "B", "C", "D"
